@@ -16,13 +16,14 @@ from vlib.pitlib import dyadic_init
 class MD(nn.Module):
     """Conv2d -> [BN] -> ReLU -> [depthwise Conv2d -> ReLU] -> [pool] -> flatten -> Linear [-> ReLU -> Linear]"""
 
-    def __init__(self, C=2, cin=1, HW=3, k=2, bn=False, dw=False, pool='none', two_fc=False):
+    def __init__(self, C=2, cin=1, HW=3, k=2, bn=False, dw=False, pool='none', two_fc=False, pad_mode=None):
         super().__init__()
-        self.c0 = nn.Conv2d(cin, C, k)
+        # pad_mode: the convolution pads by one pixel with a non-default padding mode ('replicate', 'reflect', 'circular')
+        self.c0 = nn.Conv2d(cin, C, k) if pad_mode is None else nn.Conv2d(cin, C, k, padding=1, padding_mode=pad_mode)
         self.bn0 = nn.BatchNorm2d(C) if bn else None
         self.dw = nn.Conv2d(C, C, 1, groups=C) if dw else None
         self.pool = {'max': nn.MaxPool2d(2), 'avg': nn.AvgPool2d(2), 'none': None}[pool]
-        o = HW - k + 1
+        o = HW - k + 1 + (2 if pad_mode is not None else 0)
         if pool != 'none':
             o //= 2
         self.two_fc = two_fc
